@@ -214,6 +214,24 @@ def rules(w, seed, spec):
                                  f'{ref.reshape(ref.shape[0], -1)[:, 0]})')
                 if not close(reduced, ref):
                     fails.append(f'{tag}: (left @ right).reduce() differs from the product of the Mueller matrices')
+                # the operands themselves must be unaffected by rule application / reduction, also when the caller's
+                # angle arrays are (mutable) numpy arrays
+                if rule in ('rot', 'hwp'):
+                    an, bn = np.array(a, dtype=np.float32, copy=True), np.array(b, dtype=np.float32, copy=True)
+                    if an.ndim and bn.ndim:
+                        a0, b0 = an.copy(), bn.copy()
+                        ran, rbn = ROT(an, st), ROT(bn, st)
+                        l2 = ran.T if combo[0] == 'T' else ran
+                        r2 = (rbn.T if combo[1] == 'T' else rbn) if rule == 'rot' else HWP(st)
+                        before = to_np(kind, _apply_chain([l2, r2], x))
+                        try:
+                            (l2 @ r2).reduce()
+                        except BaseException:       # noqa: BLE001
+                            pass
+                        after = to_np(kind, _apply_chain([l2, r2], x))
+                        if not close(before, after) or not np.array_equal(an, a0) or not np.array_equal(bn, b0):
+                            fails.append(f'{tag}: reducing the product modified its operands (numpy angle arrays updated '
+                                         f'in place)')
                 if len(fails) > 5:
                     return fails
     return fails
